@@ -96,6 +96,12 @@ func check(args []string) (code int) {
 		}()
 		p.Run(c)
 	}()
+	if *tier == "thorough" {
+		c.AuditVariants(verifDir)
+		for _, v := range c.Variants {
+			fmt.Printf("variant %v: %v %v\n", v["seed"], v["status"], v["reported_as"])
+		}
+	}
 	return c.Finish(verifDir, started)
 }
 
